@@ -12,7 +12,8 @@ class C20(Prop):
   rule = ("Hypothesis-generated histories on a decorated chart hosted on an instrumented "
           "HsmWithQueues (handlers post/defer/recall/scribble; operations post, defer, recall, "
           "next_rtc, complete_circuit; one history in eight has 255-350 queued events so that more "
-          "than 500 transitions can occur). Oracle from the reference model: trace() parsed line by "
+          "than 500 transitions can occur); one case in four hosts the chart on a started ActiveObject under the "
+          "deterministic scheduler and reads the object's own trace(). Oracle from the reference model: trace() parsed line by "
           "line equals one record (start_at, top, resting state) for start_at followed by exactly "
           "one record (signal, previous state, new state) per step in which the model takes a "
           "transition, none for internally handled or ignored events, in order, last 500. "
@@ -24,10 +25,43 @@ class C20(Prop):
   ]
 
   def strategy(self, tier):
-    return spytrace.history(tier)
+    from hypothesis import strategies as st
+    return st.tuples(spytrace.history(tier), st.sampled_from(["queued", "queued", "queued", "ao"])).map(
+      lambda t: dict(t[0], host=t[1]))
 
   def check(self, case, stats):
-    run = spytrace.Run(case)
+    if case.get("host") == "ao":
+      return self.check_ao(case, stats)
+    return self.check_run(case, stats, None)
+
+  def check_ao(self, case, stats):
+    """The same oracle for the trace() of a started ActiveObject (deterministic scheduler)."""
+    from .. import detsched
+    if case.get("budget", 30) > 30:
+      case = dict(case, budget=30, ops=[o for o in case["ops"] if o[0] != "bulk_post"])
+    ao = detsched.install()
+    detsched.reset(ao)
+    files = detsched.miros_files()
+    s = detsched.Scheduler(schedule=[], step_limit=3000000, trace_files=[files["activeobject"]])
+    box = {}
+
+    def body(sch):
+      try:
+        self.check_run(case, stats, "ao")
+      except PropertyViolation as v:
+        box["v"] = v
+    try:
+      detsched.guarded_run(s, body)
+    except (detsched.Deadlock, detsched.StepLimit) as e:
+      raise PropertyViolation("no quiescence on an active object: %s" % e, "C20:liveness")
+    if "v" in box:
+      raise box["v"]
+    if s.thread_errors:
+      name, e, tb = s.thread_errors[0]
+      raise PropertyViolation("thread %s died: %s: %s" % (name, type(e).__name__, e), "C20:thread-error")
+
+  def check_run(self, case, stats, host):
+    run = spytrace.Run(case, host=host)
     kinds = set()
     classes = []
     try:
@@ -74,6 +108,7 @@ class C20(Prop):
       if m.d.overflowed:
         break
     classes.extend("kind_" + k for k in sorted(kinds))
+    classes.append("host_" + (host or "queued"))
     stats.case(case, "trans" in kinds and len(kinds) >= 2, classes)
 
   def compare(self, run, where):
